@@ -393,6 +393,235 @@ func (in *inliner) deferExplicitEdits(info *types.Info, fd *ast.FuncDecl) ([]tex
 	return eds, true
 }
 
+// planDeferGuarded: "clean up unless committed". A function without named results that registers, at the top level of
+// its body and as its last defer,
+//
+//	defer func() { if COND { CLEANUP } }()
+//
+// where COND reads nothing but boolean local variables of the function (the `committed` / `established` flag) and
+// CLEANUP has no return, recover, defer, go or label, runs the test at every return that follows, after the results
+// were evaluated and before any earlier defer. The returns are rewritten to say so:
+//
+//	return E    =>    { _dfgN := E; if COND { CLEANUP }; return _dfgN }
+//
+// and the defer is dropped; the flag analysis of the graphs then sees on which exits the cleanup runs. Every name the
+// handler uses must denote the same object at the return. Not reproduced: the handler running during a panic.
+func planDeferGuarded(p *Prog, in *inliner, plan *roundPlan) {
+	for _, pkg := range p.Pkgs {
+		info := pkg.TypesInfo
+		for _, file := range pkg.Syntax {
+			if strings.HasSuffix(p.Fset.Position(file.Pos()).Filename, "_test.go") {
+				continue
+			}
+			for _, d := range file.Decls {
+				fd, ok := d.(*ast.FuncDecl)
+				if !ok || fd.Body == nil {
+					continue
+				}
+				if eds, ok := in.deferGuardedEdits(pkg.Types, info, fd); ok {
+					fe := in.file(fd.Pos())
+					fe.edits = append(fe.edits, eds...)
+					plan.expanded = append(plan.expanded, "flag-guarded deferred cleanup of "+fd.Name.Name+" run at its returns")
+				}
+			}
+		}
+	}
+}
+
+func (in *inliner) deferGuardedEdits(tpkg *types.Package, info *types.Info, fd *ast.FuncDecl) ([]textEdit, bool) {
+	if fd.Type.Results != nil {
+		for _, fld := range fd.Type.Results.List {
+			if len(fld.Names) > 0 {
+				return nil, false
+			}
+		}
+	}
+	var lastDefer, ds *ast.DeferStmt
+	bad := false
+	ast.Inspect(fd.Body, func(n ast.Node) bool {
+		switch x := n.(type) {
+		case *ast.FuncLit:
+			return false
+		case *ast.DeferStmt:
+			if lastDefer == nil || x.Pos() > lastDefer.Pos() {
+				lastDefer = x
+			}
+		case *ast.LabeledStmt:
+			bad = true
+		case *ast.BranchStmt:
+			if x.Tok == token.GOTO {
+				bad = true
+			}
+		}
+		return true
+	})
+	if bad || lastDefer == nil {
+		return nil, false
+	}
+	for _, st := range fd.Body.List {
+		if x, ok := st.(*ast.DeferStmt); ok && x == lastDefer {
+			ds = x
+		}
+	}
+	if ds == nil || len(ds.Call.Args) != 0 {
+		return nil, false
+	}
+	lit, ok := ast.Unparen(ds.Call.Fun).(*ast.FuncLit)
+	if !ok || lit.Type.Params.NumFields() != 0 || lit.Type.Results.NumFields() != 0 || len(lit.Body.List) != 1 {
+		return nil, false
+	}
+	ifs, ok := lit.Body.List[0].(*ast.IfStmt)
+	if !ok || ifs.Init != nil || ifs.Else != nil {
+		return nil, false
+	}
+	// the condition: boolean locals of this function only
+	okCond, nFlag := true, 0
+	ast.Inspect(ifs.Cond, func(n ast.Node) bool {
+		switch x := n.(type) {
+		case *ast.Ident:
+			v, isVar := info.Uses[x].(*types.Var)
+			if !isVar || v.IsField() || v.Parent() == nil || v.Parent() == tpkg.Scope() || !types.Identical(v.Type().Underlying(), types.Typ[types.Bool]) ||
+				v.Pos() < fd.Body.Pos() || v.Pos() > ds.Pos() {
+				if c, isC := info.Uses[x].(*types.Const); isC && (c.Name() == "true" || c.Name() == "false") {
+					return true
+				}
+				okCond = false
+			}
+			nFlag++
+		case *ast.UnaryExpr:
+			if x.Op != token.NOT {
+				okCond = false
+			}
+		case *ast.BinaryExpr:
+			if x.Op != token.LAND && x.Op != token.LOR && x.Op != token.EQL && x.Op != token.NEQ {
+				okCond = false
+			}
+		case *ast.ParenExpr, nil:
+		default:
+			okCond = false
+		}
+		return okCond
+	})
+	if !okCond || nFlag == 0 {
+		return nil, false
+	}
+	var outer []*ast.Ident // identifiers of the handler that denote something declared outside it
+	ast.Inspect(lit.Body, func(n ast.Node) bool {
+		switch x := n.(type) {
+		case *ast.ReturnStmt, *ast.DeferStmt, *ast.GoStmt, *ast.LabeledStmt, *ast.FuncLit:
+			bad = true
+		case *ast.BranchStmt:
+			if x.Tok == token.GOTO || x.Label != nil {
+				bad = true
+			}
+		case *ast.Ident:
+			o := info.Uses[x]
+			if o == nil {
+				return true
+			}
+			if b, isB := o.(*types.Builtin); isB && b.Name() == "recover" {
+				bad = true
+			}
+			if o.Pos().IsValid() && (o.Pos() < lit.Pos() || o.Pos() > lit.End()) && o.Parent() != nil && o.Parent() != tpkg.Scope() && o.Parent() != types.Universe {
+				if _, isField := o.(*types.Var); isField && o.(*types.Var).IsField() {
+					return true
+				}
+				outer = append(outer, x)
+			}
+		}
+		return true
+	})
+	// a break / continue in the cleanup would leave the handler's own loops only; refuse unlabeled ones outside a loop
+	if bad {
+		return nil, false
+	}
+	body := in.text(lit.Body.Lbrace+1, lit.Body.Rbrace)
+	var eds []textEdit
+	okAll := true
+	nRet := 0
+	ctr := 0
+	ast.Inspect(fd.Body, func(n ast.Node) bool {
+		if _, isLit := n.(*ast.FuncLit); isLit {
+			return false
+		}
+		rt, ok := n.(*ast.ReturnStmt)
+		if !ok || rt.Pos() < ds.End() {
+			return true
+		}
+		nRet++
+		scope := tpkg.Scope().Innermost(rt.Pos())
+		if scope == nil {
+			okAll = false
+			return true
+		}
+		for _, id := range outer {
+			if _, o := scope.LookupParent(id.Name, rt.Pos()); o != info.Uses[id] {
+				okAll = false
+			}
+		}
+		var sb strings.Builder
+		sb.WriteString("{\n")
+		var outs []string
+		if len(rt.Results) == 1 {
+			if tv, has := info.Types[rt.Results[0]]; has {
+				if tup, isTup := tv.Type.(*types.Tuple); isTup {
+					var names []string
+					for i := 0; i < tup.Len(); i++ {
+						ctr++
+						names = append(names, "_dfg"+itoaS(ctr))
+					}
+					sb.WriteString(strings.Join(names, ", ") + " := " + in.text(rt.Results[0].Pos(), rt.Results[0].End()) + "\n")
+					outs = names
+				}
+			}
+		}
+		if outs == nil {
+			for _, e := range rt.Results {
+				tv, has := info.Types[e]
+				if !has {
+					okAll = false
+					continue
+				}
+				if tv.Value != nil || tv.IsNil() {
+					outs = append(outs, in.text(e.Pos(), e.End()))
+					continue
+				}
+				ctr++
+				nm := "_dfg" + itoaS(ctr)
+				sb.WriteString(nm + " := " + in.text(e.Pos(), e.End()) + "\n")
+				outs = append(outs, nm)
+			}
+		}
+		sb.WriteString("{" + body + "}\nreturn " + strings.Join(outs, ", ") + "\n}")
+		eds = append(eds, textEdit{start: in.off(rt.Pos()), end: in.off(rt.End()), text: sb.String()})
+		return true
+	})
+	if !okAll {
+		return nil, false
+	}
+	last := fd.Body.List[len(fd.Body.List)-1]
+	if _, isRet := last.(*ast.ReturnStmt); !isRet {
+		if fd.Type.Results == nil || len(fd.Type.Results.List) == 0 {
+			scope := tpkg.Scope().Innermost(fd.Body.Rbrace - 1)
+			for _, id := range outer {
+				if scope == nil {
+					return nil, false
+				}
+				if _, o := scope.LookupParent(id.Name, fd.Body.Rbrace-1); o != info.Uses[id] {
+					return nil, false
+				}
+			}
+			eds = append(eds, textEdit{start: in.off(fd.Body.Rbrace), end: in.off(fd.Body.Rbrace), text: "\n{" + body + "}\n"})
+			nRet++
+		}
+	}
+	if nRet == 0 {
+		return nil, false
+	}
+	eds = append(eds, textEdit{start: in.off(ds.Pos()), end: in.off(ds.End()), text: ""})
+	return eds, true
+}
+
 func itoaS(n int) string {
 	if n == 0 {
 		return "0"
